@@ -58,6 +58,7 @@ class C03(runner.Check):
         add(1, 2, "R35", "precomputed", mode="solvers", cost=3)
         add(1, 1, "R513", "ridge", mode="solvers", cost=3)
         add(2, 2, "R35", "precomputed", mode="spectrum", cost=3)
+        add(2, 1, "I", "precomputed", mode="solvers", m=3, cost=20)  # 4x3: n_components=2 with the truncated solvers (reversal of >= 2 ARPACK vectors)
         if tier == "thorough":
             for V in ("I", "R35", "R513", "F35", "R35R513"):
                 add(2, 2, V, "ridge", cost=8, remainder=True)
